@@ -201,7 +201,7 @@ func checkCase(t stats.TB, part string, c *evmgen.Case, o *evmgen.Outcome) *repo
 		// every SELFDESTRUCT costs at least SelfdestructGas out of the purchased gas
 		mints += int(c.Tx.Gas / params.SelfdestructGas)
 	}
-	if mints > 0 {
+	if mints > 0 && (tr != nil || c.Tx.Suicide) {
 		rp.label("selfdestruct-refund")
 	}
 	credits.Add(credits, new(big.Int).Mul(big.NewInt(int64(mints)), o.Refund))
